@@ -53,6 +53,8 @@ DRAW = "{urn:oasis:names:tc:opendocument:xmlns:drawing:1.0}"
 CONTAINERS = ["styles", "automatic-styles", "master-styles", "font-face-decls"]
 DEFAULT_OK = ["paragraph", "text", "section", "table", "table-column", "table-row", "table-cell", "chart", "drawing-page", "graphic", "presentation", "ruby"]
 SOURCES = ["text", "spreadsheet", "presentation", "drawing", "lpod_styles.odt", "example.odp", "styled_table.ods", "example.odt"]
+# further documents merged from (automatic number styles in styles.xml, pictures in styles, ...)
+MERGE_EXTRA = ["issue_28_pretty.odt", "background.odp", "simple_table.ods", "minimal_hidden.ods", "note.odt", "toc_done.odt", "frame_image.odp", "md_style.odt"]
 
 
 def open_doc(name):
@@ -168,10 +170,10 @@ def gen_ops(rng, families, n):
             ops.append({"op": "set_table_displayed", "displayed": rng.random() < 0.5, "with_style": rng.random() < 0.6})
         elif k < 0.92:
             ops.append({"op": "add_page_break_style"})
-        elif k < 0.95:
+        elif k < 0.94:
             ops.append({"op": "delete_styles"})
         else:
-            ops.append({"op": "merge_styles_from", "other": rng.choice(SOURCES)})
+            ops.append({"op": "merge_styles_from", "other": rng.choice(SOURCES + MERGE_EXTRA)})
     return ops
 
 
@@ -316,6 +318,16 @@ def run_case(case, res):
                     out.append(("add_page_break_style:duplicate-style", {"dup": dup[:3]}))
                 if doc.get_style("paragraph", "odfdopagebreak") is None:
                     out.append(("add_page_break_style:style-not-found", {}))
+                # another document asking for the same style must not take it away from this one
+                from odfdo import Document
+
+                other_doc = Document("text")
+                other_doc.add_page_break_style()
+                a3 = keys_sig(census(doc))
+                if a3 != a2 or doc.get_style("paragraph", "odfdopagebreak") is None:
+                    out.append(("add_page_break_style:style-lost-when-another-document-adds-it", {}))
+                if other_doc.get_style("paragraph", "odfdopagebreak") is None:
+                    out.append(("add_page_break_style:style-not-found-in-second-document", {}))
             elif o == "delete_styles":
                 n = doc.delete_styles()
                 after = census(doc)
@@ -347,9 +359,23 @@ def run_case(case, res):
                         out.append(("merge_styles_from:source-definition-does-not-win", {"style": list(k), "copies": len(after[cand[0]])}, fid))
                         break
                 for k in before:
-                    if k not in after:
+                    # (a destination style may be replaced by the source's style of the same family and
+                    # name living in another container of the same part: the source wins)
+                    if k not in after and not any(kk[0] == k[0] and kk[2:] == k[2:] for kk in after):
                         out.append(("merge_styles_from:destination-style-lost", {"style": list(k)}))
                         break
+                # unique by family+name inside each part (whatever the container), unless it was not before
+                def per_part(cen):
+                    d = {}
+                    for k, v in cen.items():
+                        if k[4] and k[2] != "default-style":
+                            d[(k[0], k[2], k[3], k[4])] = d.get((k[0], k[2], k[3], k[4]), 0) + len(v)
+                    return d
+
+                pb, pa = per_part(before), per_part(after)
+                dup = [list(k) + [n] for k, n in pa.items() if n > 1 and pb.get(k, 0) <= 1]
+                if dup:
+                    out.append(("merge_styles_from:same-family-and-name-twice-in-one-part", {"styles": dup[:4]}))
         except Exception as e:
             import traceback
 
